@@ -4,6 +4,7 @@ import (
 	"go/token"
 	"go/types"
 	"strings"
+	"time"
 
 	"golang.org/x/tools/go/ssa"
 
@@ -322,6 +323,22 @@ func runC05(p *an.Prog, r *an.Run, tier string) {
 					}
 					// the record outlives the nonce's own freshness: a nonce ahead of the pool's clock passes the age check
 					// for (nonce - now) + window, so the TTL has to grow with that lead
+					// badger's API contract: Entry.WithTTL keeps ExpiresAt in whole unix seconds, rounded down, and an entry
+					// is gone once ExpiresAt <= now: a TTL meant to cover a nanosecond-precise window needs a margin of at
+					// least one second added to it
+					margin := false
+					for _, n := range dt.Nodes {
+						if bo, ok := n.(*ssa.BinOp); ok && bo.Op == token.ADD {
+							for _, side := range []ssa.Value{bo.X, bo.Y} {
+								if k, ok := an.ConstInt(side); ok && k >= int64(time.Second) {
+									margin = true
+								}
+							}
+						}
+					}
+					if !margin {
+						bad = append(bad, "the nonce entry's TTL has no margin for badger's whole-second expiry (ExpiresAt is rounded down): the record can vanish up to a second before a replay of the nonce starts failing the age check")
+					}
 					if !dt.HasParam(noncePrm) || dt.CallTo(func(f *types.Func) bool { return an.IsFunc(f, "time", "Now") }) == nil {
 						bad = append(bad, "the nonce entry's TTL does not depend on how far the nonce lies ahead of the clock: the record of a future nonce expires while a replay of the same request still passes the age check, and is honoured again")
 					}
